@@ -1,10 +1,10 @@
 package main
 
 import (
+	"fmt"
 	"go/token"
 	"go/types"
 	"golang.org/x/tools/go/ssa"
-	"fmt"
 	"os"
 	"sort"
 )
